@@ -14,6 +14,7 @@
 //   calcv|derv <slot> <n> r1..rn                       Eigen::VectorXd overloads
 //   ivl <slot> <n> r1..rn                              Spline::getInterval
 //   tnew <n> x.. y.. flags(string of n chars)          Table::resize + set
+//   tnewe <n> x.. y.. yerr.. flags                     the same with an error column (SetHasYErr)
 //   tgrid <min> <max> <spacing>                        Table::GenerateGridSpacing
 //   tsmooth <k> | tsave <path> | tload <path> | tdump  Table::Smooth/Save/Load, contents
 #include <iostream>
@@ -164,6 +165,17 @@ int main() {
         tab.resize(n);
         for (long i = 0; i < n; ++i) tab.set(i, x(i), y(i), fl.at(i));
         std::cout << "ok" << std::endl;
+      } else if (cmd == "tnewe") {
+        long n;
+        in >> n;
+        Eigen::VectorXd x = readvec(in, n), y = readvec(in, n), e = readvec(in, n);
+        std::string fl;
+        in >> fl;
+        tab = Table();
+        tab.SetHasYErr(true);
+        tab.resize(n);
+        for (long i = 0; i < n; ++i) tab.set(i, x(i), y(i), fl.at(i), e(i));
+        std::cout << "ok" << std::endl;
       } else if (cmd == "tgrid") {
         double mn, mx, sp;
         in >> mn >> mx >> sp;
@@ -197,6 +209,10 @@ int main() {
         for (Index i = 0; i < tab.size(); ++i) {
           char c = tab.flags(i);
           std::cout << ((c == '\0' || c == ' ') ? '_' : c);
+        }
+        if (tab.GetHasYErr()) {
+          std::cout << " e";
+          for (Index i = 0; i < tab.size(); ++i) std::cout << " " << tab.yerr(i);
         }
         std::cout << std::endl;
       } else {
